@@ -402,6 +402,7 @@ impl Runner {
         sessions.insert("S8".into(), Box::new(Sess::<S8Ops> { slots: HashMap::new(), chain: None }));
         sessions.insert("Q5".into(), Box::new(Sess::<Q5Ops> { slots: HashMap::new(), chain: None }));
         sessions.insert("R4".into(), Box::new(Sess::<R4Ops> { slots: HashMap::new(), chain: None }));
+        sessions.insert("W20".into(), Box::new(Sess::<W20Ops> { slots: HashMap::new(), chain: None }));
         Runner { sessions, slot_shape: HashMap::new() }
     }
 
@@ -410,6 +411,7 @@ impl Runner {
             "S8" => S8Ops::fields(),
             "Q5" => Q5Ops::fields(),
             "R4" => R4Ops::fields(),
+            "W20" => W20Ops::fields(),
             _ => return "bad-shape".into(),
         };
         let got: Vec<String> = want.iter().map(|(k, a)| format!("{}:{}", k, if *a { "a" } else { "n" })).collect();
